@@ -1,61 +1,79 @@
 //! C12 — Kani harnesses on the real `rlib_bitset` crate for the operations outside Verus' language subset
 //! (`&`, `|`, `^` use enumerate; `!` takes `mut self`; `count` uses map/sum; derived `==`).
-//! N = 2 words, both words of both operands fully symbolic: complete for that capacity, bounded in N only.
+//! Capacities N = 1, 2, 3 words, every word of every operand fully symbolic: complete for those capacities, bounded in N only.
 #![allow(unused)]
 #[cfg(kani)]
 mod h {
     use rlib_bitset::Bitset;
-    const N: usize = 2;
 
-    /// a bitset whose two words are fully symbolic, built through the public API only
-    fn any_bitset() -> (Bitset<N>, [u64; N]) {
-        let w: [u64; N] = kani::any();
-        let mut b = Bitset::<N>::from_u64(w[0]);
-        let mut k = 0;
-        while k < 64 {
-            if w[1] >> k & 1 == 1 {
-                b.set(64 + k);
+    macro_rules! for_capacity {
+        ($m:ident, $n:expr) => {
+            pub mod $m {
+                use super::*;
+                const N: usize = $n;
+
+            /// a bitset all of whose N words are fully symbolic, built through the public API only
+            fn any_bitset() -> (Bitset<N>, [u64; N]) {
+                let w: [u64; N] = kani::any();
+                let mut b = Bitset::<N>::from_u64(w[0]);
+                let mut word = 1;
+                while word < N {
+                    let mut k = 0;
+                    while k < 64 {
+                        if w[word] >> k & 1 == 1 {
+                            b.set(64 * word + k);
+                        }
+                        k += 1;
+                    }
+                    word += 1;
+                }
+                (b, w)
             }
-            k += 1;
-        }
-        (b, w)
-    }
-    fn bit(w: &[u64; N], k: usize) -> bool { w[k / 64] >> (k % 64) & 1 == 1 }
+            fn bit(w: &[u64; N], k: usize) -> bool { w[k / 64] >> (k % 64) & 1 == 1 }
 
-    #[kani::proof]
-    #[kani::unwind(66)]
-    fn bounded_binops_n2() {
-        let (a, wa) = any_bitset();
-        let (b, wb) = any_bitset();
-        let k: usize = kani::any();
-        kani::assume(k < 64 * N);
-        assert!((&a & &b).test(k) == (bit(&wa, k) && bit(&wb, k)));
-        assert!((&a | &b).test(k) == (bit(&wa, k) || bit(&wb, k)));
-        assert!((&a ^ &b).test(k) == (bit(&wa, k) != bit(&wb, k)));
-    }
+            #[kani::proof]
+            #[kani::unwind(66)]
+            fn bounded_binops() {
+                let (a, wa) = any_bitset();
+                let (b, wb) = any_bitset();
+                let k: usize = kani::any();
+                kani::assume(k < 64 * N);
+                assert!((&a & &b).test(k) == (bit(&wa, k) && bit(&wb, k)));
+                assert!((&a | &b).test(k) == (bit(&wa, k) || bit(&wb, k)));
+                assert!((&a ^ &b).test(k) == (bit(&wa, k) != bit(&wb, k)));
+            }
 
-    #[kani::proof]
-    #[kani::unwind(66)]
-    fn bounded_not_n2() {
-        let (a, wa) = any_bitset();
-        let k: usize = kani::any();
-        kani::assume(k < 64 * N);
-        let c = !a;
-        assert!(c.test(k) == !bit(&wa, k));
-    }
+            #[kani::proof]
+            #[kani::unwind(66)]
+            fn bounded_not() {
+                let (a, wa) = any_bitset();
+                let k: usize = kani::any();
+                kani::assume(k < 64 * N);
+                let c = !a;
+                assert!(c.test(k) == !bit(&wa, k));
+            }
 
-    #[kani::proof]
-    #[kani::unwind(66)]
-    fn bounded_count_n2() {
-        let (a, wa) = any_bitset();
-        assert!(a.count() == (wa[0].count_ones() + wa[1].count_ones()) as usize);
-    }
+            #[kani::proof]
+            #[kani::unwind(66)]
+            fn bounded_count() {
+                let (a, wa) = any_bitset();
+                let mut want = 0usize;
+                let mut i = 0;
+                while i < N { want += wa[i].count_ones() as usize; i += 1; }
+                assert!(a.count() == want);
+            }
 
-    #[kani::proof]
-    #[kani::unwind(66)]
-    fn bounded_eq_n2() {
-        let (a, wa) = any_bitset();
-        let (b, wb) = any_bitset();
-        assert!((a == b) == (wa == wb));
+            #[kani::proof]
+            #[kani::unwind(66)]
+            fn bounded_eq() {
+                let (a, wa) = any_bitset();
+                let (b, wb) = any_bitset();
+                assert!((a == b) == (wa == wb));
+            }
+            }
+        };
     }
+    for_capacity!(n2, 2);
+    for_capacity!(n1, 1);
+    for_capacity!(n3, 3);
 }
